@@ -1,7 +1,7 @@
 (** Tie (a) of DESIGN.md 2.3 for the LEF parser, second part (family "lef_parse2", properties C04, C05, C11): the definitions generated from
     lef21/src/read.rs `LefParser::parse_units` (the whole loop over the eight unit statements), `parse_size`, `parse_symmetries`, `parse_macro_class`,
     `parse_site_def` (loop, derive_builder of `LefSite`, `build()`), `parse_property`, `parse_pin_direction`, `parse_geometry_mask`, `parse_iterate`,
-    `parse_step_pattern`, `parse_point_list`, `parse_geometry_tail`, `parse_geometry`, and of the helpers `expect_and_get_str`, `get_name`, `expect_ident`
+    `parse_step_pattern`, `parse_point_list`, `parse_geometry_tail`, `parse_geometry`, `parse_bus_bit_chars`, `parse_divider_char`, and of the helpers `expect_and_get_str`, `get_name`, `expect_ident`
     (Gen/KernelsLefRead2Gen.v, unit "lefr2"), read as in Lef/KernelsInstLefRead2.v (monadic self = the model's parser state; the token-level helpers
     tied in the family lef_parse external), EQUAL the functions of the same names of Lef/LefParse.v, the error value apart.  Where the model carries a
     variant flag ([c_points_to_semi]) the tie is stated for the code as it is now ([cfr_now]).
@@ -305,5 +305,26 @@ Proof.
   unfold x_get, x_put. cbn [gLefParser_ctx]. unfold k_pop. rewrite R.removelast_map, map_MG_ctx.
   unfold g_LefSiteBuilder_build. ls. cbn [gLefSiteBuilder_class gLefSiteBuilder_size gLefSiteBuilder_name gLefSiteBuilder_row_pattern gLefSiteBuilder_symmetry].
   destruct bc as [c|]; cbn [option_map]; [|reflexivity]. destruct bs as [sz|]; [|reflexivity]. destruct bsy as [[?|]|]; reflexivity.
+Qed.
+(** ** parse_bus_bit_chars, parse_divider_char: the characters of the string literal ([chars_of]), the length test, `chars[i]` *)
+Lemma len_eq : forall (A : Type) (l : list A) (n : nat), (Z.of_nat (List.length l) =? Z.of_nat n) = Nat.eqb (List.length l) n.
+Proof. intros. destruct (Nat.eqb_spec (List.length l) n); [apply Z.eqb_eq|apply Z.eqb_neq]; lia. Qed.
+Lemma tie_parse_bus_bit_chars : forall s, g_parse_bus_bit_chars cf src s = lunit (parse_bus_bit_chars cf src s).
+Proof.
+  intros s. unfold g_parse_bus_bit_chars, g_LefParser_parse_bus_bit_chars, parse_bus_bit_chars, expect_semi, bind, ret. ls. cbn [i_eq v_get].
+  change (g_LefParser_expect_and_get_str (lm_xops cf src) bytes (x_expect cf src) (x_txt src) gTokenType_StringLiteral) with (g_expect_and_get_str cf src (Gtty TString)).
+  unfold x_expect_key at 1. unfold lmU. cbn [MLefKey]. mstep. rewrite tie_expect_and_get_str. mstep.
+  unfold x_chars, x_collect, lm_ret. change 4 with (Z.of_nat 4). rewrite len_eq.
+  destruct (chars_of b) as [|c0 [|c1 [|c2 [|c3 [|c4 r]]]]]; cbn [List.length Nat.eqb negb]; try flt.
+  xs. mstep.
+Qed.
+Lemma tie_parse_divider_char : forall s, g_parse_divider_char cf src s = lunit (parse_divider_char cf src s).
+Proof.
+  intros s. unfold g_parse_divider_char, g_LefParser_parse_divider_char, parse_divider_char, expect_semi, bind, ret. ls. cbn [i_eq v_get].
+  change (g_LefParser_expect_and_get_str (lm_xops cf src) bytes (x_expect cf src) (x_txt src) gTokenType_StringLiteral) with (g_expect_and_get_str cf src (Gtty TString)).
+  unfold x_expect_key at 1. unfold lmU. cbn [MLefKey]. mstep. rewrite tie_expect_and_get_str. mstep.
+  unfold x_chars, x_collect, lm_ret. change 3 with (Z.of_nat 3). rewrite len_eq.
+  destruct (chars_of b) as [|c0 [|c1 [|c2 [|c3 r]]]]; cbn [List.length Nat.eqb negb]; try flt.
+  xs. mstep.
 Qed.
 End Ties.
